@@ -33,11 +33,13 @@ import (
 	"verifmc/schednet"
 )
 
-// Paillier test key sizes (admitted under testing.Testing()): 1024 bits for Lindell17; CGGMP21's range parameters
-// need logN >= l' + epsilon = 1792 bits on a 256-bit curve (cggmp21.NewParameters), the smallest admissible size.
+// Paillier test key sizes (admitted under testing.Testing()): 1024 bits for Lindell17, 2048 bits for CGGMP21 (the
+// size the repository's own CGGMP21 tests use). Note: cggmp21.NewParameters and its trusted dealer accept 1792 bits
+// (= l' + epsilon on a 256-bit curve), but with such keys every signing run fails in Round2 (the affine-operation
+// proof wants 2^1792 inside the symmetric plaintext range, i.e. two more bits); only reachable with test-size keys.
 const (
 	paillierTestBits = 1024
-	cggmpTestBits    = 1792
+	cggmpTestBits    = 2048
 )
 
 // ecCase is one complete honest run of an expensive ECDSA protocol (or, with refuse set, one constructor-refusal
@@ -459,24 +461,11 @@ func ecBody(cs []ecCase) func(*engine.X) {
 	}
 }
 
-// ecPaddedBody: for the few, long runner-API cases under process sharding. The engine runs the top of the choice
-// tree in EVERY worker process until the frontier is 16 x wider than the number of processes, so a space of a dozen
-// executions would be executed completely by each process. The single choice point is therefore padded with empty
-// slots (marked trivial, they cost nothing): slot 0 and every slot >= 1+len(cs) is empty, slot i runs case i-1, and
-// consecutive slots go to different processes.
-const ecPad = 16*16 + 2
-
+// ecPaddedBody: the few, long runner-API cases under process sharding (see slot).
 func ecPaddedBody(cs []ecCase) func(*engine.X) {
-	n := ecPad
-	if len(cs)+1 > n {
-		n = len(cs) + 1
-	}
 	return func(x *engine.X) {
-		i := x.Choose("slot", n)
-		if i == 0 || i > len(cs) {
-			x.Trivial()
-			return
+		if i, ok := slot(x, len(cs), true); ok {
+			runEC(x, cs[i])
 		}
-		runEC(x, cs[i-1])
 	}
 }
